@@ -8,8 +8,8 @@ from . import formats as F
 from . import textio as T
 from .tensym import TenSym, Ten, Obj
 
-N_ATOMS = 3
-ATOM_NAMES = ["N", "CA", "C"]
+N_ATOMS = 4
+ATOM_NAMES = ["N", "CA", "C", "O"]
 
 
 def model_topology():
@@ -34,7 +34,7 @@ class World:
         self.B = Ten.sym("B", (n_frames, 3, 3)) if cell else None
         self.t = Ten.sym("t", (n_frames,)) if time else None
         self.top = model_topology()
-        self.types = ["Ta", "Tb", "Tc"]
+        self.types = ["Ta", "Tb", "Tc", "Td"]
         self._ev = TenSym({})
 
     def cut(self, arr, a, b):
@@ -88,3 +88,84 @@ def written(ctx, key, world, partition, root, assume=default_assume, me_extra=No
         kw.update(extra_args or {})
         ts.run_fn(fn, self=me, **kw)
     return T.flatten(rec)
+
+
+# ---------------------------------------------------------------------------------------------------
+# reading back what was written
+# ---------------------------------------------------------------------------------------------------
+class EndOfFile(Exception):
+    pass
+
+
+def text_file(pieces):
+    """a model of a text file opened for reading that holds the written pieces: readline() / iteration / tell() / seek()"""
+    from .ttext import TText
+    ls, tail = T.lines(pieces)
+    lines_ = [TText(list(l_) + ["\n"]) for l_ in ls] + ([TText(tail)] if tail else [])
+    lines_ = [(l_.literal() if l_.literal() is not None else l_) for l_ in lines_]
+    fh = Obj(tag="fh(read)", _lenient=True)
+    state = {"k": 0}
+
+    def width_of(l_):
+        return len(l_) if isinstance(l_, str) else l_.total_width()
+
+    def readline():
+        if state["k"] >= len(lines_):
+            return ""
+        state["k"] += 1
+        return lines_[state["k"] - 1]
+
+    def tell():
+        return sum(width_of(l_) for l_ in lines_[:state["k"]])
+
+    def seek(off, whence=0):
+        pos = off if whence == 0 else (tell() + off if whence == 1 else sum(width_of(l_) for l_ in lines_) + off)
+        acc = 0
+        for k_, l_ in enumerate(lines_ + [""]):
+            if acc == pos:
+                state["k"] = k_
+                return None
+            if k_ < len(lines_):
+                acc += width_of(l_)
+        from .pysym import Unsupported
+        raise Unsupported("seek to %s: not the start of a line" % pos)
+
+    def it():
+        while state["k"] < len(lines_):
+            state["k"] += 1
+            yield lines_[state["k"] - 1]
+    fh.readline, fh.tell, fh.seek, fh._iter = readline, tell, seek, it
+    fh.close = lambda: None
+    fh._state, fh._lines = state, lines_
+    return fh
+
+
+def reader_object(ctx, key, fh, **fields):
+    rel, cls = F.rel_cls(key)
+    mod = ctx.py.mod(rel)
+    me = Obj(tag="file(read)", _mode="r", _fh=fh, _file=fh, _open=True, _is_open=True, _frame_index=0, _line_counter=0, _filename="FILE", distance_unit="angstroms", _lenient=True, **fields)
+    me._methods = {q.split(".", 1)[1]: f for q, f in mod.functions.items() if q.startswith(cls + ".") and q.count(".") == 1}
+    me._isa = [cls]
+    return me
+
+
+def read_call(ctx, key, me, method, root, assume=default_assume, models=None, **kw):
+    rel, cls = F.rel_cls(key)
+    mod = ctx.py.mod(rel)
+    fn = F.method(ctx, key, method)
+    funcs = {q_: f_ for q_, f_ in mod.functions.items() if "." not in q_}
+    mm = {"ensure_type": lambda ev, c: ev.ex(c.args[0]), "warnings.warn": lambda ev, c: None, "cast_indices": lambda ev, c: ev.ex(c.args[0])}
+    mm.update(models or {})
+    ts = TenSym({}, funcs=funcs, models=mm, parent=root)
+    ts.assume = assume
+    return ts.run_fn(fn, self=me, **kw)
+
+
+def read_back(ctx, key, pieces, root, assume=default_assume, **kw):
+    """read() of the format's file class evaluated on a model file that holds `pieces` (opened as the class opens it: mdcrd skips its title line)"""
+    fh = text_file(pieces)
+    fields = {"mdcrd": dict(_n_atoms=N_ATOMS, _has_box=None), "gro": dict(n_atoms=N_ATOMS)}.get(key, {})
+    me = reader_object(ctx, key, fh, **fields)
+    if key == "mdcrd":
+        fh.readline()
+    return read_call(ctx, key, me, "read", root, assume=assume, **kw), me
